@@ -542,6 +542,30 @@ def complete_model(env, all_pre, timeout=20):
     return None
 
 
+def nice_model(asserts, model, budget=40.0, per_call=4):
+    """a counterexample whose values float64 can hit exactly: greedily pin the free variables of a satisfiable query to small
+    integers while it stays satisfiable (knife-edge witnesses such as 'a difference equal to a threshold' replay in floats only
+    when the other values are exactly representable).  Returns a model or None."""
+    t0 = time.time()
+    names = sorted(sr.free_vars(asserts))
+    fixed = []
+    cur = model
+    for v in names:
+        if time.time() - t0 > budget:
+            break
+        x = sr.var(v)
+        for cand in (0, 1, 2, 3, 4, -1, 5, 6):
+            c = sr.cmp('=', x, sr.const(cand))
+            r = smt.check(asserts + fixed + [c], timeout=per_call, want_model=True)
+            if r['res'] == 'sat' and r['model'] is not None:
+                fixed.append(c)
+                cur = r['model']
+                break
+            if time.time() - t0 > budget:
+                break
+    return cur if fixed else None
+
+
 def discharge(ob, axioms=(), timeout=20, solvers=('z3',), robust=True):
     """returns dict(status, model, time, solver, nq).  status: unsat | sat | unknown"""
     if ob.goal is sr.TRUE:
@@ -742,6 +766,17 @@ def process_scenario(task):
                                 envf = smt.model_to_float(full)
                                 rec['env'] = envf
                                 rec['replay'] = _replay(fn, params, envf, oid)
+                                if not rec['replay'].get('reproduced') and d.get('asserts'):
+                                    # second attempt with a witness pinned to small integers wherever the query allows it
+                                    nm = nice_model(d['asserts'], env)
+                                    full2 = complete_model(nm, d['pre_all'] + list(ctx.pre), timeout=timeout) if nm else None
+                                    if full2 is not None:
+                                        envf2 = smt.model_to_float(full2)
+                                        rp2 = _replay(fn, params, envf2, oid)
+                                        if rp2.get('reproduced'):
+                                            rec['env'] = envf2
+                                            rec['replay'] = rp2
+                                            rec['replay']['witness'] = 'pinned to small integers after the first model did not reproduce in float64'
                         if task.get('crosscheck') and d['status'] == 'unsat' and d['nq']:
                             rec['cross'] = _cross(ob, ctx.axioms, timeout)
                 except Exception as e:   # noqa
